@@ -58,6 +58,22 @@ TxNumMap ==
     /\ S.nums = Txs
     /\ Len(S.byh) = S.h + 1
     /\ \A k \in 1..Len(S.byh) : S.byh[k] = Tree[Chain[k]].txs
+(* C01 / C03: the raw rows of both databases are exactly the semantic rows of the oracle - nothing hidden remains *)
+NonGenInputs(b) == LET RECURSIVE Cnt(_)
+                       Cnt(k) == IF k = 0 THEN 0 ELSE Len(TxIns(Tree[b].txs[k])) + Cnt(k - 1)
+                   IN Cnt(Len(Tree[b].txs))
+RawRowsClean ==
+  Valid =>
+    /\ ToSet(S.rawu) = { <<e.t, e.i, e.s, e.v>> : e \in O.U } /\ Len(S.rawu) = Cardinality(O.U)
+    /\ ToSet(S.rawh) = { <<e.t, e.i, e.s, 1>> : e \in O.U } /\ Len(S.rawh) = Cardinality(O.U)
+    \* history rows: known scripts only, strictly increasing across a script's rows in key order, and (when no
+    \* history-only flush is ahead) no tx number at or beyond the committed tx count
+    /\ \A k \in 1..Len(S.rawhist) : S.rawhist[k][1] \in Scripts /\ S.rawhist[k][3] # <<>>
+    /\ (~S.ahead => \A k \in 1..Len(S.rawhist) : \A j \in 1..Len(S.rawhist[k][3]) : S.rawhist[k][3][j] < S.txc)
+    \* undo rows of the blocks inside the reorg window hold one 24-byte entry per spent input of that block
+    \* (rows above the tip or below the window are stale leftovers that nothing reads)
+    /\ \A k \in 1..Len(S.undolen) : (S.undolen[k][1] <= S.h /\ S.undolen[k][1] > S.h - T.limit /\ S.undolen[k][1] >= 0) =>
+          (S.undolen[k][3] = 0 /\ S.undolen[k][2] = NonGenInputs(Chain[S.undolen[k][1] + 1]))
 (* C03 / resume clause of C04, C05: a catch-up that saw the daemon's longer chain ends on it *)
 CaughtUpFresh ==
   (IsView /\ S.ev \in {"caughtup", "final"} /\ S.fresh /\ S.h + 1 = Len(S.best)) => Chain = S.best
